@@ -244,6 +244,57 @@ pub async fn c07(seed: u64, thorough: bool) {
             n_merged += 1;
         }
     }
+    // (b') one very long run: however much a run of adjacent chunks holds it is ONE request (36 MiB here, 160 MiB in
+    // the thorough tier - beyond any buffer or per-response size a reader might think of), then a second, short run
+    {
+        let piece = 4usize << 20;
+        let n_pieces = if thorough { 40 } else { 9 };
+        let mut lay: Vec<(u64, usize)> = Vec::new();
+        let mut off = 3031u64;
+        for _ in 0..n_pieces {
+            lay.push((off, piece));
+            off += piece as u64;
+        }
+        off += 77;
+        lay.push((off, 1000));
+        let dlen = off as usize + 1000 + 5;
+        let data = Arc::new(h::pattern(dlen));
+        let req = format!("long-run pieces={}x{} then {}:1000", n_pieces, piece, off);
+        println!("TRY\t{}", req);
+        srv.reset(data.clone(), vec![]);
+        let mut reader = HttpReader::from_url(srv.url().parse().unwrap()).retries(0);
+        let mut exact = true;
+        let mut k = 0usize;
+        {
+            let mut stream = reader.read_chunks(lay.iter().map(|&(o, s)| ChunkOffset::new(o, s)).collect());
+            loop {
+                match tokio::time::timeout(std::time::Duration::from_secs(120), stream.next()).await {
+                    Ok(Some(Ok(b))) => {
+                        if k >= lay.len() || b[..] != data[lay[k].0 as usize..lay[k].0 as usize + lay[k].1] {
+                            exact = false;
+                        }
+                        k += 1;
+                    }
+                    Ok(Some(Err(_))) => {
+                        exact = false;
+                        break;
+                    }
+                    Ok(None) => break,
+                    Err(_) => h::hung(&req),
+                }
+            }
+        }
+        let log = srv.take_log();
+        let got: Vec<(u64, u64)> = log.iter().map(|r| r.unwrap_or((u64::MAX, 0))).collect();
+        let want = oracle_runs(&lay);
+        if got != want {
+            h::emit_oracle_fail("requests-are-not-the-maximal-runs", &format!("{} got={}", req, reqs_token(&log)));
+        }
+        if !exact || k != lay.len() {
+            h::emit_oracle_fail("long-run-not-delivered-exactly", &req);
+        }
+        h::emit_stat("long_run_bytes", n_pieces * piece);
+    }
     // (c) archive level: `Archive::chunk_stream(index)` over HTTP for every subset of the descriptors of
     // real archives (what a clone asks for when the other chunks were found in seeds): exactly the
     // missing descriptors are delivered, in archive order, through the maximal runs of their stored ranges.
